@@ -254,12 +254,13 @@ class C14(core.Prop):
     # ---- model side --------------------------------------------------------------------------------------------
     def coq_cases(self, case, obs):
         stmt = case['statement']
-        if 'error' in obs or any(c.get('unevaluable') for c in obs['calls']) or any(x[0] in ('ref', 'set') for x in sources_in(stmt)) or sum(x[0] == 'query' for x in sources_in(stmt)) != 1:
+        if 'error' in obs or any(c.get('unevaluable') for c in obs['calls']) or any(x[0] == 'set' for x in sources_in(stmt)) or sum(x[0] == 'query' for x in sources_in(stmt)) != 1:
             return []
         q = stmt[2]
-        fl = lambda l: cl([dslcoq.cfeature(f, {}) for f in l], 'feature')
-        of = lambda f: co(f, lambda c: dslcoq.cfeature(c, {}), 'feature')
-        ordering = cl([cp(dslcoq.cfeature(f, {}), cb(d == 'ascending')) for f, d in q.get('ord', [])], 'feature * bool')
+        refs = dslcoq.refs_in(stmt)
+        fl = lambda l: cl([dslcoq.cfeature(f, refs) for f in l], 'feature')
+        of = lambda f: co(f, lambda c: dslcoq.cfeature(c, refs), 'feature')
+        ordering = cl([cp(dslcoq.cfeature(f, refs), cb(d == 'ascending')) for f, d in q.get('ord', [])], 'feature * bool')
         out = []
         for call in obs['calls']:
             t = call['table']
@@ -267,7 +268,7 @@ class C14(core.Prop):
                       'list (nat * value)')
             cols = cl([cn(dslcoq.nid(c)) for c in call['cols']], 'nat')
             adm = co(call['admitted'], lambda bs: cl([cb(b) for b in bs], 'bool'), 'list bool')
-            out.append(f"(C14.CHints {dslcoq.csource(stmt[1], {})} {fl(q.get('sel', []))} {of(q.get('pre'))} {fl(q.get('grp', []))} "
+            out.append(f"(C14.CHints {dslcoq.csource(stmt[1], refs)} {fl(q.get('sel', []))} {of(q.get('pre'))} {fl(q.get('grp', []))} "
                        f"{of(q.get('post'))} {ordering} {cn(dslcoq.TABLE_ID[t])} {cols} {rows} {adm})")
         return out
 
